@@ -95,6 +95,10 @@ def ensure_worker(race=False, log=sys.stderr):
     outdir = os.path.join(BUILD, key)
     binp = os.path.join(outdir, "vworker")
     if os.path.exists(binp) and not os.environ.get("VERIF_NOCACHE"):
+        try:
+            os.utime(os.path.dirname(binp))  # in use: keeps it from being pruned
+        except OSError:
+            pass
         return binp
     t0 = time.time()
     rw = rewriter_path()
@@ -154,8 +158,10 @@ def prune(keep, maxkeep=6):
         if os.path.isdir(p) and os.path.exists(os.path.join(p, "vworker")):
             ents.append((os.path.getmtime(p), p))
     ents.sort(reverse=True)
-    for _, p in ents[maxkeep:]:
-        if os.path.basename(p) != keep:
+    # (a binary that was built or used in the last three hours may belong to a check
+    # that is still running - several checks can run at once, on different trees)
+    for mt, p in ents[maxkeep:]:
+        if os.path.basename(p) != keep and time.time() - mt > 3 * 3600:
             shutil.rmtree(p, ignore_errors=True)
 
 
